@@ -786,6 +786,25 @@ fn gen_posarr(thorough: bool, r: &mut Rng, emit: Emit) {
             }
         }
     }
+    // has_sequences (the run detector behind is_valid_and_normalized): every length 0..=66, words made
+    // of runs of chosen lengths at chosen offsets, all-ones, single gaps
+    for len in 0..=66u32 {
+        for _ in 0..(if thorough { 40 } else { 8 }) {
+            let mut x: u64 = 0;
+            for _ in 0..r.range(1, 4) {
+                let rl = match r.below(4) { 0 => len as u64, 1 => (len as u64).saturating_sub(1), 2 => len as u64 + 1, _ => r.range(1, 64) }.min(64);
+                let off = r.below(65 - rl);
+                let m = if rl == 64 { u64::MAX } else { ((1u64 << rl) - 1) << off };
+                x |= m;
+            }
+            if r.chance(1, 6) { x = u64::MAX; }
+            if r.chance(1, 6) { x = u64::MAX & !(1u64 << r.below(64)); }
+            if r.chance(1, 10) { x = r.next(); }
+            emit(&format!("pa hs {} {}", x, len));
+        }
+        emit(&format!("pa hs 0 {}", len));
+        emit(&format!("pa hs {} {}", u64::MAX, len));
+    }
     // out-of-contract arguments
     emit(&format!("pa ed {} -", hexenc(&vec![1u8; 65])));
     emit("pa ed 40 -");
